@@ -175,17 +175,25 @@ class ABCARMPropertyGraph(ABCPropertyGraph):
 
             # trace from connection points over links to other connection points
             # remember connection points
+            # (connection points found this way are traced in turn until no new ones turn up,
+            # so that every connection point we keep comes with all of its links)
             new_cps = set()
-            for cp in keep_cps:
-                cp_neighbors = self.get_first_and_second_neighbor(node_id=cp,
-                                                                  rel1=ABCPropertyGraph.REL_CONNECTS,
-                                                                  node1_label=ABCPropertyGraph.CLASS_Link,
-                                                                  rel2=ABCPropertyGraph.REL_CONNECTS,
-                                                                  node2_label=ABCPropertyGraph.CLASS_ConnectionPoint)
-                for pair in cp_neighbors:
-                    # pair is a 2-element list
-                    delegations_info[del_id].keep_nodes.update(pair)
-                    new_cps.add(pair[1])
+            trace_cps = set(keep_cps)
+            while len(trace_cps) > 0:
+                found_cps = set()
+                for cp in trace_cps:
+                    cp_neighbors = self.get_first_and_second_neighbor(node_id=cp,
+                                                                      rel1=ABCPropertyGraph.REL_CONNECTS,
+                                                                      node1_label=ABCPropertyGraph.CLASS_Link,
+                                                                      rel2=ABCPropertyGraph.REL_CONNECTS,
+                                                                      node2_label=ABCPropertyGraph.CLASS_ConnectionPoint)
+                    for pair in cp_neighbors:
+                        # pair is a 2-element list
+                        delegations_info[del_id].keep_nodes.update(pair)
+                        found_cps.add(pair[1])
+                # trace only those that have not been traced yet
+                trace_cps = found_cps.difference(keep_cps, new_cps)
+                new_cps.update(found_cps)
 
             keep_cps.update(new_cps)
             # from all keep cps (original and added), find switch fabrics and components or
